@@ -20,14 +20,17 @@ OptSpell  == {"none", "-o", "--output"}
 OptPos    == {"before", "after"}
 PreTarget == {"absent", "present"}
 ExitVals  == {0, 1, 7, 255, 256, -1}
+ReadVals  == {0, 65, 233, 255}         \* "read" programs exit with the byte they read from standard input (255 = end of input at once)
 
 Compilers == {"hexasm", "xcmp"}
 Invocations ==
-  {[tool |-> t, src |-> s, opt |-> o, pos |-> p, pre |-> e, xv |-> 0] :
+  {[tool |-> t, src |-> s, opt |-> o, pos |-> p, pre |-> e, xv |-> 0, via |-> "const"] :
       t \in Compilers, s \in SrcClass, o \in OptSpell, p \in OptPos, e \in PreTarget}
-  \cup {[tool |-> "xrun", src |-> "accepted", opt |-> "none", pos |-> "after", pre |-> e, xv |-> x] : e \in PreTarget, x \in ExitVals}
-  \cup {[tool |-> "xrun", src |-> s, opt |-> "none", pos |-> "after", pre |-> e, xv |-> 0] : s \in SrcClass \ {"accepted"}, e \in PreTarget}
-  \cup {[tool |-> "hexsim", src |-> "accepted", opt |-> "none", pos |-> "after", pre |-> "absent", xv |-> x] : x \in ExitVals}
+  \cup {[tool |-> "xrun", src |-> "accepted", opt |-> "none", pos |-> "after", pre |-> e, xv |-> x, via |-> "const"] : e \in PreTarget, x \in ExitVals}
+  \cup {[tool |-> "xrun", src |-> "accepted", opt |-> "none", pos |-> "after", pre |-> "absent", xv |-> x, via |-> "read"] : x \in ReadVals}
+  \cup {[tool |-> "xrun", src |-> s, opt |-> "none", pos |-> "after", pre |-> e, xv |-> 0, via |-> "const"] : s \in SrcClass \ {"accepted"}, e \in PreTarget}
+  \cup {[tool |-> "hexsim", src |-> "accepted", opt |-> "none", pos |-> "after", pre |-> "absent", xv |-> x, via |-> "const"] : x \in ExitVals}
+  \cup {[tool |-> "hexsim", src |-> "accepted", opt |-> "none", pos |-> "after", pre |-> "absent", xv |-> x, via |-> "read"] : x \in ReadVals}
 WellFormed(i) == ~(i.opt = "none" /\ i.pos = "before")      \* position is meaningless without the option
 
 Target(i) == CASE i.tool = "xrun" -> "a.bin" [] i.tool = "hexsim" -> "" [] i.opt = "none" -> "a.out" [] OTHER -> "out.bin"
